@@ -312,6 +312,7 @@ def run(ck):
         ck.verdict("G-REFUSE", fn, "accepted P-fields are exactly: time code CDS (bits 6..4 = 100) with a 16-bit day segment (bit 2 = 0)",
                    [f"P-field {b[0]:#04x} is {'accepted' if b[1] else 'refused'}" for b in bad[:4]], "256 octet values against the guard facts")
         D.check_xbuf(ck, it, fn); D.check_xdecl(ck, it, fn, "data", C(7)); D.check_escape(ck, it, fn)
+        D.check_short_refusals_justified(ck, it, fn, "data", C(7), "the 7 octets of a CDS short timestamp")
         if how != "unpack_from_raw":
             D.check_independent(ck, it, env, r[2], "data", fn)
     it = new_interp(P); env = Env()
